@@ -336,7 +336,7 @@ impl Ctx {
         for e in &self.events {
             match e {
                 Ev::Drop { id, .. } => *drops.entry(*id).or_default() += 1,
-                Ev::Dealloc { addr, status, size, align, rsize, ralign } => {
+                Ev::Dealloc { addr, status, size, align, rsize, ralign, .. } => {
                     *frees.entry(*addr).or_default() += 1;
                     if *status != 0 {
                         self.errors.push(format!("[layout] block {:#x} requested (size {}, align {}) released (size {}, align {}) status {}", addr, rsize, ralign, size, align, status));
